@@ -65,13 +65,14 @@ func checkC17(r *Run) {
 		}
 	}
 	if f := r.fn("(x/gov/types.ACL).GetOwner"); f != nil {
-		for _, ret := range Returns(f) {
-			t := P.TermAt(ret.Results[0], ret).String()
+		// judged per alternative: an early return inside the loop and a result variable with break read the same
+		for _, a := range P.RetAlternatives(f, 0) {
+			t := a.T.String()
 			if t == "nil" {
 				continue
 			}
-			ok, _ := HasAtom(P.Guards(ret, 0), `^\(param:a\[.*\]\.Key == param:permKey\)$`)
-			r.Check(ok && strings.HasPrefix(t, "param:a[") && strings.HasSuffix(t, "].Addr"), "C17-R1", "ACL.GetOwner/pair-of-that-key", P.InstrPos(ret), t, "GetOwner returns "+t+" under "+strings.Join(atomStrings(P.Guards(ret, 0)), " ; "))
+			ok, _ := HasAtom(a.G, `^\(param:a\[.*\]\.Key == param:permKey\)$`)
+			r.Check(ok && strings.HasPrefix(t, "param:a[") && strings.HasSuffix(t, "].Addr"), "C17-R1", "ACL.GetOwner/pair-of-that-key", P.InstrPos(a.Ret), t, "GetOwner returns "+t+" under "+strings.Join(atomStrings(a.G), " ; "))
 		}
 	}
 	if f := r.fn(govK + "GetACL"); f != nil {
